@@ -18,7 +18,7 @@ RULE = ("[plus the shared recompute-after-history monitor: this property's opera
 	"non-nullable bool vectors equal to Python's elementwise comparison; tables of 0-4 rows x 1-4 columns: row slices and masks apply to "
 	"every column alike, missing column names raise, t[rows][cols] == t[cols][rows] in cells and names. distinct = (operation, length, key).")
 ASSUMPTIONS = [
-	"index-list getitem and two-axis t[rows, cols] are not part of the statement and are not judged",
+	"index-list getitem is not part of the statement and is not judged; the two-axis form t[rows, cols] is judged for row slices only",
 	"masks that are nullable or contain None may be rejected; zero-length masks are not generated",
 	"a column name counts as missing only when it matches no stored name, sanitised name or accessor",
 	"zero-row results are compared on names only when both sides carry columns",
@@ -394,7 +394,49 @@ def run_bigmask(chk, spec):
 			chk.fail("a row mask keeps the True rows of every column", "table-rows/wrong-cells/mask", f"{n}-row table, mask True at {true_at!r} ({how}): {short(cells, 160)} vs {short([exp, ids], 160)}")
 
 
-RUNNERS.update({"rows_held": run_rows_held, "compare_history": run_compare_history, "bigmask": run_bigmask})
+def run_table_2d(chk, spec):
+	"""the two-axis form t[rows, cols] / t[cols, rows] with a row slice: the same cells as t[rows][cols]"""
+	ts = spec["table"]
+	t = common.mk_table(ts)
+	s = slice(*spec["s"])
+	form, cols = spec["colform"], spec["cols"]
+	names = ts["names"]
+	if form == "name":
+		ckey, idxs, single = names[cols[0]], [names.index(names[cols[0]])], True
+	elif form == "int":
+		ckey, idxs, single = cols[0], [cols[0]], True
+	elif form == "names":
+		ckey, idxs, single = tuple(names[c] for c in cols), [names.index(names[c]) for c in cols], False
+	else:
+		cs = slice(*cols)
+		ckey, idxs, single = cs, list(range(len(names)))[cs], False
+	key = (s, ckey) if spec["order"] == "rows-first" or not isinstance(ckey, str) else (ckey, s)
+	exp = [ts["cols"][i][s] for i in idxs]
+	o = call(lambda: t[key])
+	chk.judged("table-commute", ("t2d", len(ts["cols"][0]), spec["s"], form, spec["order"]))
+	if not o.ok:
+		chk.fail("t[rows, cols] selects the same cells as t[rows][cols]", f"table-2d/raises/{form}/{type(o.exc).__name__}", f"{spec!r}: t[{key!r}] raised {o!r}; expected {short(exp, 120)}")
+		return
+	r = o.value
+	chk.observe(r, "table-2d")
+	if single:
+		got = [list(r._underlying)] if isinstance(r, Vector) and not isinstance(r, Table) else None
+	else:
+		got = table_cells(r) if isinstance(r, Table) else None
+	nexp = len(exp[0]) if exp else 0
+	if got is None:
+		if nexp == 0 and isinstance(r, Vector) and len(r) == 0:
+			return
+		chk.fail("t[rows, cols] selects the same cells as t[rows][cols]", f"table-2d/wrong-type/{form}", f"{spec!r}: t[{key!r}] -> {type(r).__name__} {short(r, 100)}")
+		return
+	if nexp == 0 and all(len(g) == 0 for g in got):
+		return
+	if len(got) != len(exp) or any(not M.same_list(g, e) for g, e in zip(got, exp)):
+		cls = "expected-nonempty-got-empty" if nexp and all(len(g) == 0 for g in got) else "wrong-cells"
+		chk.fail("t[rows, cols] selects the same cells as t[rows][cols]", f"table-2d/{cls}/{form}", f"{spec!r}: t[{key!r}] gives {short(got, 160)}, list model {short(exp, 160)}")
+
+
+RUNNERS.update({"table_2d": run_table_2d, "rows_held": run_rows_held, "compare_history": run_compare_history, "bigmask": run_bigmask})
 
 
 def run(chk):
@@ -503,6 +545,14 @@ def run(chk):
 		k = rng.choice([1, 1, 2, 3])
 		cols = [rng.choice(ts["names"]) for _ in range(k)]
 		chk.case("table_commute", {"table": ts, "rows": rows, "cols": cols}, "table-commute")
+	# two-axis selection with every kind of row slice
+	for _ in range(700 if chk.quick() else 5000):
+		ts = gen_table(rng, nrows=rng.choice([1, 2, 3, 4, 5]))
+		nc = len(ts["names"])
+		ts["names"] = [f"n{j}" for j in range(nc)]
+		form = rng.choice(["name", "int", "names", "slice"])
+		cols = [rng.randrange(nc)] if form in ("name", "int") else ([rng.randrange(nc) for _ in range(rng.choice([1, 2]))] if form == "names" else (rng.choice([None, 0, 1]), rng.choice([None, nc, 1]), None))
+		chk.case("table_2d", {"table": ts, "s": (rng.choice(STARTS), rng.choice(STARTS), rng.choice(STEPS)), "colform": form, "cols": cols, "order": rng.choice(["rows-first", "cols-first"])}, "table-2d")
 	for _ in range(60 if chk.quick() else 300):
 		ts = gen_table(rng, nrows=rng.choice([1, 2, 3]))
 		k = rng.choice([1, 2, 3])
